@@ -11,3 +11,4 @@ open GoRedis
 #print axioms C09_only_current_ca
 #print axioms C09_rotation_effective
 #print axioms C09_retired_ca_rejected
+#print axioms C09_source_lifecycle_is_the_modelled_one
